@@ -313,7 +313,43 @@ def run_embed(ctx, p):
     ctx.nontrivial('embed', which, np.round(A, 6).tolist(), np.round(B, 6).tolist())
 
 
-RUNNERS = {'multirep': run_multirep, 'shared': run_shared, 'doublecover': run_doublecover, 'embed': run_embed}
+def run_halfturn_eq(ctx, p):
+    """the same rotation reached by different routes compares equal, in particular a half turn (scalar part at rounding level
+    of either sign): +theta / -theta about the same axis for theta = pi, the matrix route, degrees, and products"""
+    S = sm()
+    ax = np.asarray(p['axis'], dtype=np.float64)
+    which = p['which']
+    sig = dict(api='UnitQuaternion.__eq__', kind='same_rotation_unequal', route=which)
+    try:
+        PI = math.pi
+        if which == 'axis':
+            k = p['k']
+            f = [S.UnitQuaternion.Rx, S.UnitQuaternion.Ry, S.UnitQuaternion.Rz][k]
+            g = [S.SO3.Rx, S.SO3.Ry, S.SO3.Rz][k]
+            qs = [f(PI), f(-PI), f(180, 'deg'), f(-180, 'deg'), S.UnitQuaternion(g(PI)), S.UnitQuaternion(g(-PI)), f(PI / 2) * f(PI / 2), f(3 * PI), f(0.5) * f(PI - 0.5)]
+        else:
+            A = S.UnitQuaternion.AngVec
+            qs = [A(PI, ax), A(-PI, ax), A(PI, -ax), A(180, ax, unit='deg'), S.UnitQuaternion(S.SO3.AngVec(PI, ax)), S.UnitQuaternion(S.SO3.AngVec(-PI, ax)),
+                  A(PI / 2, ax) * A(PI / 2, ax), A(3 * PI, ax)]
+        multi = S.UnitQuaternion([q.A for q in qs])
+        for i, a in enumerate(qs):
+            for j, b in enumerate(qs):
+                same_rot = float(np.max(np.abs(np.asarray(a.R) - np.asarray(b.R)))) <= 1e-12
+                if not same_rot:
+                    continue
+                r1, r2 = a == b, a != b
+                ctx.judge('doublecover', bool(r1) is True and bool(r2) is False, sig,
+                          lambda: 'two quaternions of the same half turn compare unequal: %s (route %d) vs %s (route %d): == %r, != %r' % (a.A, i, b.A, j, r1, r2))
+            rm = multi == a
+            ok = isinstance(rm, list) and len(rm) == len(qs) and all(bool(x) for x in rm)
+            ctx.judge('doublecover', ok, dict(sig, seq=True), lambda: 'sequence == single for the same half turn gives %r' % (rm,))
+    except Exception as e:
+        ctx.bad('doublecover', dict(api='UnitQuaternion', kind='raised', exc=type(e).__name__), 'half-turn equality case raised %r' % (e,))
+    ctx.cell('halfturn_eq', which)
+    ctx.nontrivial('halfturn_eq', which, np.round(ax, 9).tolist(), p.get('k'))
+
+
+RUNNERS = {'halfturn_eq': run_halfturn_eq, 'multirep': run_multirep, 'shared': run_shared, 'doublecover': run_doublecover, 'embed': run_embed}
 
 
 def REACH():
@@ -368,6 +404,11 @@ def run(ctx):
         drive(RUNNERS, ctx, 'shared', dict(name=nm, args=args, kwargs=kw))
     for _ in range(ctx.scale(200, 4000)):
         drive(RUNNERS, ctx, 'doublecover', dict(q=gen.unit_quat(rng), other=gen.unit_quat(rng)))
+        if rng.random() < 0.15:
+            if rng.random() < 0.5:
+                drive(RUNNERS, ctx, 'halfturn_eq', dict(which='axis', k=int(rng.integers(3)), axis=np.zeros(3)))
+            else:
+                drive(RUNNERS, ctx, 'halfturn_eq', dict(which='general', axis=gen.axis(rng, 1e-2, 1e2)))
     for _ in range(ctx.scale(400, 8000)):
         which = ['SO2.SE2', 'SE3.SO3', 'SE2.SE3'][rng.integers(3)]
         mk = {'SO2.SE2': lambda: gen.so2(rng), 'SE3.SO3': lambda: gen.so3(rng), 'SE2.SE3': lambda: gen.se2(rng)}[which]
